@@ -265,5 +265,9 @@ Proof.
   - intros bs P H. left. destruct (ec_accept _ false bs); [reflexivity|discriminate].
   - left. vm_compute. reflexivity.
   - vm_compute. reflexivity.
-  - intros [H|[H _]]; vm_compute in H; discriminate.
+  - match goal with |- ~ ec_valid ?c ?pt =>
+      assert (E1 : ec_accept c false pt = false) by (vm_compute; reflexivity);
+      assert (E2 : ec_accept c true pt = false) by (vm_compute; reflexivity)
+    end.
+    intros [H|[H _]]; congruence.
 Qed.
